@@ -3,8 +3,8 @@ CONSTANTS
   ChainParams <- GrinChainParams
   CT = "AutomatedTesting"
   FTL = 300
-  MaxLen = 10
+  MaxLen = 14
   StepDeltas = {1, 60}
-  Prefix = 0
+  Prefix = 2
   Now = 1790000000
 INVARIANTS HonestAccepted MutantsDecided HeaderRulesEquiv SkipPowDecided ReadDecided ChainOK
